@@ -73,7 +73,8 @@ def solver_output(S, n, cells, W, H, fixed_cell=1):
         mod = n.get_module(base)
         for c in range(len(cells)):
             if mod.is_fixed:
-                a[nm][c] = 1.0 if c == fixed_cell else 0.0
+                own = fixed_cell[nm] if isinstance(fixed_cell, dict) else fixed_cell
+                a[nm][c] = 1.0 if c == own else 0.0
             else:
                 v = S.real(f"a_{nm}_{c}")
                 S.assume(sand(v >= 0, v <= 1))
@@ -150,6 +151,51 @@ def extract_solution_is_feasible(S, hard, flip):
         S.ensure("extract.hard_module_centred_at_its_centre",
                  sand(seq(sum(r.shape.w * r.shape.h * r.center.x for r in hm.rectangles), tot * hm.center.x),
                       seq(sum(r.shape.w * r.shape.h * r.center.y for r in hm.rectangles), tot * hm.center.y)))
+
+
+@contract(P, functions=[G + "extract_solution", G + "get_value"], budget_s=900, exact_feas_ms=50,
+          scope="3 cells x (soft, two fixed modules); all solver outputs satisfying the assumed contract")
+def extract_solution_two_fixed_modules(S):
+    """added after seed C03-3 (a slip that only shows with more than one fixed module): each fixed module keeps its own
+    rectangle and fully owns exactly its own cell"""
+    o = opt()
+    E, EA = set_eps(S)
+    stub_find_location(S, E, EA)
+    W, H = S.real("W", pos=True), S.real("H", pos=True)
+    mods = {"F": hard_module(S, "f", 1, True), "S": soft_module(S, "s", "scalar", True), "G": hard_module(S, "g", 1, True)}
+    S.assume(ovl_r(mods["F"]["rectangles"][0], mods["G"]["rectangles"][0]) <= 0)
+    o_n = S.call(Netlist, {"Modules": mods, "Nets": [["S", "F", "G"]]})
+    if not o_n.ok:
+        return
+    n = o_n.value
+    fr_, gr_ = n.get_module("F").rectangles[0], n.get_module("G").rectangles[0]
+    c0 = mk_rect(S, "c0")
+    for r in (c0, fr_, gr_):
+        b = specs.box(r)
+        S.assume(sand(b[0] >= 0, b[1] >= 0, b[2] <= W, b[3] <= H))
+    S.assume(sand(specs.ovl(c0, fr_) <= 0, specs.ovl(c0, gr_) <= 0))
+    order = S.choice("cell_order", ["cFG", "GcF", "FGc"])
+    cells = {"c": c0, "F": fr_, "G": gr_}
+    cl = [cells[k] for k in order]
+    d = bare_die(S, W, H, [], [c0], [], [fr_, gr_])
+    d._netlist = n
+    th = S.real("threshold")
+    S.assume(sand(th > 0, th <= 1))
+    model = solver_output(S, n, cl, W, H, fixed_cell={"F": order.index("F"), "G": order.index("G")})
+    snap = {k: (r.center.x, r.center.y, r.shape.w, r.shape.h) for k, r in (("F", fr_), ("G", gr_))}
+    out = S.call(o.extract_solution, model, d, cl, th)
+    S.ensure("extract2.no_raise", out.ok)
+    if not out.ok:
+        return
+    die2, al, disp = out.value
+    for nm, rect in (("F", fr_), ("G", gr_)):
+        own = [x for x in al.allocations if x.rect is rect]
+        S.ensure("extract2.each_fixed_module_fully_owns_its_own_cell", len(own) == 1 and list(own[0].alloc.keys()) == [nm] and seq(own[0].alloc[nm], 1))
+        S.ensure("extract2.each_fixed_module_keeps_its_rectangle", sand(n.get_module(nm).rectangles[0] is rect, seq(rect.center.x, snap[nm][0]), seq(rect.center.y, snap[nm][1]),
+                                                                         seq(rect.shape.w, snap[nm][2]), seq(rect.shape.h, snap[nm][3])))
+        S.ensure("extract2.fixed_modules_not_in_other_cells", all(nm not in x.alloc for x in al.allocations if x.rect is not rect))
+    S.ensure("extract2.ratios_between_0_and_1_and_no_cell_beyond_100_percent",
+             sand(*[sand(v >= 0, v <= 1) for x in al.allocations for v in x.alloc.values()], *[sum(x.alloc.values()) <= 1 for x in al.allocations]))
 
 
 @contract(P, functions=["frame.netlist.module.Module.recenter_rectangles"], params=[dict(k=k) for k in (1, 2, 3)])
